@@ -58,6 +58,9 @@ known("C01", "C01-typename-aliased-in-interface-field", ["interface-field", "typ
 known("C01", "C01-explicit-id-on-interface-next-to-fragment", ["interface-field-owned-per-implementation", "explicit-id", "frag-inline-typed"], r"^diff:MISSING id$",
       "an interface that declares id itself: the client's id selected on the interface next to a per-type fragment is treated like the helper id the planner puts into that fragment and scrubbed for that type (a repair that skips the registration when a sibling selects the field breaks TestUnionPlanUnionPartialScrubFields: the sibling test looks into the fragments of other types too)",
       witness="{ usrs { ... on UA { uname } id } }")
+known("C01", "C01-conditional-explicit-typename-in-union-field", ["dir-on-fragment", "union-field", "typename"], r"^errors: could not find the id for elements in target list: map\[…\]$",
+      "the client's own __typename inside a fragment with @skip / @include on the union of its field, next to a fragment on a member with fields of another service: the planner takes the conditional __typename for the one it needs and adds no unconditional helper; when the condition takes it away the entries arrive empty and the executor gives up (the __typename twin of C01-conditional-explicit-id-leaks; what is left of the union part after 491167a / 160d54d; visible with >=3 fields only, i.e. in the thorough tier)",
+      witness="{ us { ... @skip(if: true) { __typename ... on N1 { calc } } } }")
 known("C01", "C01-node-typed-field", ["node-interface-field"], r"^(diff:(MISSING|EXTRA) (id|__typename|<field>)|errors: INVALID SUBREQUEST: Unknown type \"<x>\"\.)$",
       "a field whose declared type is the Node interface itself is planned like the root node() entry point: plain fields / aliases next to fragments are dropped or leak helpers",
       witness="{ anyNode { ... on N2 { title } id } }")
@@ -105,6 +108,9 @@ fixed("C14", "C14-cache-key-ignores-variable-definitions", "db0edef", "query T($
 fixed("C18", "C18-duplicate-start-id", "1999e44", "a start with an id that is still in use overwrote the entry of the running subscription: nothing could stop it any more, its upstream connection and goroutines leaked (reported by a round-6 agent)")
 fixed("C17", "C17-upstream-error-object-swallowed", "2603204", "{\"type\":\"error\",\"id\":\"1\",\"payload\":{\"message\":\"boom\"}} from the service ended the subscription silently, the client never heard of the error (only a list payload was forwarded; reported by a round-6 agent)")
 fixed("C05", "C05-node-lookup-with-extra-argument", "03099a6", "Query.node(id: ID!, lang: String = \"en\"): Node in one service and the plain lookup in another: accepted silently in one order of the service list, refused in the other")
+fixed("C15", "C15-cut-off-type-reference", "b3ea80b", "type Query { deepest: [[[[Int!]!]!]!]! }: deeper than the seven ofType levels of the introspection query; the cut-off reference was dereferenced in a worker goroutine of the introspector, the process died at start-up (reported by a round-6 agent)")
+fixed("C18", "C18-start-without-payload", "6ba8b48", "{\"type\":\"start\",\"id\":\"1\"} without payload: nil dereference on the connection's goroutine (reported by a round-6 agent)")
+fixed("C17", "C17-null-event", "ab271c9", "subscription { n1Maybe { name phone } } with an event whose root field is null: the steps of the other services have no insertion point, the executor was called with a plan without root steps and the client received 'query plan contains no root steps' (reported by a round-6 agent)")
 fixed("C13", "C13-introspection-list-order", "9452942", "{ __schema { types { kind } } } / { types { n: name } }: the lists under __schema were sorted by the `name` key of the answer only; without it they came back in map iteration order")
 fixed("C19", "C19-literal-forwards-variable", "fe55c44", 'mutation ($f: Upload) { upload(f: $f) plain1(s: "f") }: the step variable list was filled with the raw text of every argument value; a literal reading like a variable name made the step forward that variable (here: the file) to a service which does not use it')
 fixed("C15", "C15-default-named-roots-lost", "5e01f44", "schema { query: RootQuery mutation: Mutation }: the reconstruction printed a schema block with the renamed root only and lost the default-named Mutation (Subscription) root")
